@@ -213,7 +213,16 @@ impl StateMachine<'_> {
                 // enough. But at this point it is guaranteed
                 // that this handler is going to handle this
                 // line, so mutating it is acceptable.
-                self.raw_line = tabs::expand(&self.raw_line, &self.config.tab_cfg);
+                self.raw_line =
+                    match code_prefix_end(&self.raw_line, &grep_line.path, grep_line.line_number) {
+                        // (expand tabs in the code only: the prefix is located by its length)
+                        Some(i) => format!(
+                            "{}{}",
+                            &self.raw_line[..=i],
+                            tabs::expand(&self.raw_line[(i + 1)..], &self.config.tab_cfg)
+                        ),
+                        None => tabs::expand(&self.raw_line, &self.config.tab_cfg),
+                    };
                 get_code_style_sections(
                     &self.raw_line,
                     self.config.grep_match_word_style,
@@ -359,7 +368,16 @@ impl StateMachine<'_> {
                 // enough. But at the point it is guaranteed
                 // that this handler is going to handle this
                 // line, so mutating it is acceptable.
-                self.raw_line = tabs::expand(&self.raw_line, &self.config.tab_cfg);
+                self.raw_line =
+                    match code_prefix_end(&self.raw_line, &grep_line.path, grep_line.line_number) {
+                        // (expand tabs in the code only: the prefix is located by its length)
+                        Some(i) => format!(
+                            "{}{}",
+                            &self.raw_line[..=i],
+                            tabs::expand(&self.raw_line[(i + 1)..], &self.config.tab_cfg)
+                        ),
+                        None => tabs::expand(&self.raw_line, &self.config.tab_cfg),
+                    };
                 get_code_style_sections(
                     &self.raw_line,
                     self.config.grep_match_word_style,
@@ -410,6 +428,25 @@ fn make_style_sections<'a>(
     StyleSectionSpecifier::StyleSections(sections)
 }
 
+/// Index in `raw_line` of the last byte of the `path:` / `path:number:` prefix of a grep line.
+fn code_prefix_end(raw_line: &str, path: &str, line_number: Option<usize>) -> Option<usize> {
+    let last_of_prefix = match line_number {
+        Some(_) => {
+            // The number may be written with leading zeros (`notes.txt:09:00 standup` without
+            // -n is read as line 9): count its digits in the line itself.
+            let line = ansi::strip_ansi_codes(raw_line);
+            let digits = line
+                .get(path.len() + 1..)?
+                .bytes()
+                .take_while(u8::is_ascii_digit)
+                .count();
+            path.len() + 1 + digits
+        }
+        None => path.len(),
+    };
+    ansi::ansi_preserving_index(raw_line, last_of_prefix)
+}
+
 // Return style sections describing colors received from git.
 fn get_code_style_sections<'b>(
     raw_line: &'b str,
@@ -418,13 +455,7 @@ fn get_code_style_sections<'b>(
     path: &str,
     line_number: Option<usize>,
 ) -> Option<StyleSectionSpecifier<'b>> {
-    if let Some(prefix_end) = ansi::ansi_preserving_index(
-        raw_line,
-        match line_number {
-            Some(n) => format!("{}:{}:", path, n).len() - 1,
-            None => path.len(),
-        },
-    ) {
+    if let Some(prefix_end) = code_prefix_end(raw_line, path, line_number) {
         let match_style_sections = ansi::parse_style_sections(&raw_line[(prefix_end + 1)..])
             .iter()
             .map(|(ansi_term_style, s)| {
